@@ -141,6 +141,11 @@ class BaseCheck(object):
         """Return a list of reasons why the run is inconclusive (deciding monitor saw nothing...)."""
         return []
 
+    def cross(self, merged):
+        """Verdicts that need the observations of several shards (separate processes) side by side.
+        Returns a list of (mechanism key, witness dict)."""
+        return []
+
     def extra(self, merged):
         return {}
 
@@ -301,6 +306,8 @@ def main_check(check_id, tier, seed, jobs=None, replay=None, inline=False, only=
         specs = [body['witness']['shard']]
         tier = body.get('tier', tier)
         want_key = body['key']
+        if isinstance(specs[0], dict) and specs[0].get('cross'):
+            specs = [sp for sp in check.plan(tier, body.get('seed', seed)) if sp.get('campaign') == specs[0].get('campaign')]
     else:
         specs = check.plan(tier, seed)
         if only:
@@ -309,6 +316,11 @@ def main_check(check_id, tier, seed, jobs=None, replay=None, inline=False, only=
     jobs = jobs or min(16, os.cpu_count() or 4, max(1, len(specs)))
     dumps, lost = run_shards(check, specs, tier, jobs, inline=inline)
     m = _merge(dumps)
+    for key, w in (check.cross(m) or []):
+        m['viol_counts'][key] += 1
+        lst = m['violations'].setdefault(key, [])
+        if len(lst) < MAX_WITNESS_PER_KEY:
+            lst.append({k: (v if isinstance(v, (int, float, str, bool, type(None), dict)) else show(v, 400)) for k, v in w.items()})
     known = findings.load_open(check.ID)
     inconcl = list(lost) + m['inconclusive']
     if not replay and not only:
